@@ -91,8 +91,14 @@ def matrices(rep):
         for nm, n in lst:
             if nm in ret_names:
                 slot_role[ret_names.index(nm)] = role
-    rep.ob("O17.1", "R15", mp, len(ret_names) == 4 and slot_role.get(2) == "reactant" and slot_role.get(3) == "product", "return (species, reactions, S_minus, S_plus)",
+    # both matrices identified with a role: agree or not; a matrix whose filling site the rule could not find: not decided
+    v_ = None if (len(ret_names) == 4 and not {2, 3} <= set(slot_role)) else (len(ret_names) == 4 and slot_role.get(2) == "reactant" and slot_role.get(3) == "product")
+    rep.ob("O17.1", "R15", mp, v_, "return (species, reactions, S_minus, S_plus)",
            "build_S_minus_plus returns (.., consumed matrix, produced matrix)", {"slot_roles": {str(k): v for k, v in slot_role.items()}})
+
+    if v_ is None:
+        # without the roles of the two matrices the remaining matrix facts cannot be phrased; one undecided obligation stands for them
+        return
 
     def atom(n):
         if isinstance(n, ast.Name):
